@@ -76,7 +76,9 @@ CLAIMED = {
              "trace is folded through TxMon by TLC, and the fine-grained event trace of every run (system bytes handed out, queue "
              "registered, request written, message taken, queue put, hand-over begin/end, queue removed) must be a behaviour of "
              "the Transactions model. Primaries of the peer that carry the system bytes of an open request (PeerCollide; witness: "
-             "routing by system bytes alone) and a link lost inside an inbound frame before the reconnect are part of model and runs.",
+             "routing by system bytes alone) and a link lost inside an inbound frame before the reconnect are part of model and runs. The "
+             "same promises are checked over SECS-I with both stations wanting the line at the same moment (callers judged by TxMon); the "
+             "wedge of the unchanged library with three or more transfers at once is a known finding.",
         note="schedules of the real code are sampled (PCT depth 3), not exhausted; messages still queued for dispatch when the "
              "link drops are treated as in flight at link loss",
         design="5/C06"),
@@ -131,7 +133,8 @@ CLAIMED = {
              "TLC). Random walks of 40 requests over the 121-request alphabet (thorough: 3000 walks of 60 requests) run "
              "on a real equipment handler with numeric and text ids; decoded replies, S5F1 reports and the constant/alarm tables "
              "after every step are validated by TLC. The predefined Clock variable is read at frozen equipment-clock instants "
-             "(sub-second parts around every digit boundary) in TimeFormat 0/1/2 set through S2F15; ClockJudge (TLC) decides each reply.",
+             "(sub-second parts around every digit boundary) in TimeFormat 0/1/2 set through S2F15; ClockJudge (TLC) decides each reply. Every "
+             "history of 4 (5) enable / disable / set / clear operations on one alarm is replayed as well.",
         note="two user SVs, four ECs, two alarms; value classes below/min/inside/max/above; other predefined SVs masked in the walks; "
              "the equipment's clock is replaced through the module-level datetime reference (falls back to the wall-clock window)",
         design="5/C13"),
@@ -210,7 +213,8 @@ CLAIMED = {
              "generator's List/Array structure, key order and leaf items are compared; every mutant must raise. Lexical level: SfdlLex "
              "model-checks the tokenizer's character loop against the documented rules for every text of up to 7 (8) characters "
              "(witness: comment end swallowed), SfdlSep enumerates every separator of up to 3 (4) characters the rules allow between "
-             "two tokens and each is placed at every gap of 7 real definitions.",
+             "two tokens and each is placed at every gap of 7 real definitions; pairs of definitions that differ only in where the line break "
+             "ends a comment are read one after the other in both orders; elements of open lists are inspected as append / set create them.",
         note="the generator stays inside what the document defines (no empty lists, distinct keys, upper-case L)",
         design="5/C19"),
     "C03": dict(
